@@ -14,10 +14,10 @@ CHECKS = {
    text="Every encode/encode_partial body emitted for the corpus is abstractly interpreted for ALL values of the generated "
         "types: narrowing casts, put_uint widths, shifts and ORs must be loss-free under dominating guards, nothing may "
         "trap, and the byte count of the Ok path equals encoded_len() as polynomials.", ref="7/C05"),
- "C15": dict(level="translation_validation", technique="interval-set semantics of generated match arms (Rust) and from_int handlers (Python) vs reference enum table",
+ "C15": dict(level="translation_validation", technique="interval-set semantics of generated match arms (Rust), from_int handlers (Python) and IsValid functions (C++, clang AST) vs reference enum table",
    text="Per enum the generated TryFrom/From conversion functions are computed as functions on the whole backing-type "
         "domain (first-match interval sweep) and compared segment by segment with the reference model: exhaustive over "
-        "all integers per enum.", ref="7/C15"),
+        "all integers per enum. C++: IsValid<Enum> accepted set == reference set for closed enums, none for open enums.", ref="7/C15"),
  "C18": dict(level="other", technique="MIR dominance/def-use rules on trait Packet's provided methods + syntactic rules on generated impls",
    text="The four provided methods of pdl_runtime::Packet are checked on rustc's MIR (generic over all implementors): "
         "decode_full/decode_mut/encode_to_* obey their laws by dominance and value-origin rules; every generated impl "
